@@ -107,6 +107,13 @@ pub fn draw_sizes(cfg: &DatabaseConfig) -> Vec<usize> {
 
 /// save with the random source scripted; Err carries the class of the save error / "panic"
 pub fn save_scripted(db: &Database, password: &str, draws: &[Vec<u8>]) -> Result<(Vec<u8>, Vec<usize>), String> {
+    // earlier saves of the same database under the same key on this thread (failing in the XML stage, in
+    // the sink): the measured save below must not depend on them
+    {
+        let seed = draws.first().map(|d| d.iter().take(8).fold(0u64, |a, b| (a << 8) | *b as u64)).unwrap_or(0);
+        let mut prng = Rng::for_case(seed, "prior-saves", db.root.children.len() as u64);
+        if prng.chance(1, 2) { crate::prior::saves(db, &DatabaseKey::new().with_password(password), &mut prng); }
+    }
     crate::hook::script(draws.to_vec());
     let r = std::panic::catch_unwind(std::panic::AssertUnwindSafe(|| {
         // the destination is a plain sink: it implements `write` and `flush` only (no vectored or
@@ -310,6 +317,23 @@ pub fn run(args: &Args) {
             }
         }
         if hostile {
+            // the same database saved into sinks that stop taking bytes (a full device, a fixed buffer): success
+            // is acceptable only together with bytes that can be read back
+            if o.violation.is_none() && bytes.len() < 200_000 {
+                for (j, quota) in [0usize, bytes.len() / 2, bytes.len().saturating_sub(1)].into_iter().enumerate() {
+                    let mut sink = crate::prior::QuotaSink { buf: Vec::new(), quota, zero: (case_i as usize + j) % 2 == 0 };
+                    let r = std::panic::catch_unwind(std::panic::AssertUnwindSafe(|| db.save(&mut sink, key.clone())));
+                    match r {
+                        Err(_) => { o.violation = Some(format!("save into a sink with room for {} bytes panicked", quota)); }
+                        Ok(Ok(())) => {
+                            if Database::open(&mut &sink.buf[..], key.clone()).is_err() {
+                                o.violation = Some(format!("save returned Ok into a sink that took {} of about {} bytes; what was written does not open", sink.buf.len(), bytes.len()));
+                            }
+                        }
+                        Ok(Err(_)) => { o.tags.push("bounded-sink:error".into()); }
+                    }
+                }
+            }
             o.nontrivial = !htags.is_empty();
             return o;
         }
@@ -436,9 +460,9 @@ pub fn run(args: &Args) {
         args,
         &agg,
         if hostile {
-            "databases from the hostile generator over the public structs (empty/blank strings and keys, C0/C1 controls, U+FFFE/FFFF, CR, separators, markup, Value::Bytes incl. invalid UTF-8, protected values empty / invalid UTF-8, empty icons and binaries, odd time-stamp names, sub-second times, extreme integers and dates) x cheap KDBX4 configurations; each is saved (random source scripted, plain sink) and re-opened under catch_unwind; stream `large`: hostile databases with 40..440 extra entries, a protected value and a Meta/Binaries attachment above 64 KiB; non-trivial = at least one hostile ingredient used; distinct = distinct (configuration, size, draws)"
+            "databases from the hostile generator over the public structs (empty/blank strings and keys, C0/C1 controls, U+FFFE/FFFF, CR, separators, markup, Value::Bytes incl. invalid UTF-8, protected values empty / invalid UTF-8, empty icons and binaries, odd time-stamp names, sub-second times, extreme integers and dates) x cheap KDBX4 configurations; each is saved (random source scripted, plain sink; in half of the cases after earlier saves on the same thread that fail in the XML stage or in the sink) and re-opened under catch_unwind, and saved again into sinks that take 0, half and all but one of the bytes (success only with a readable file); stream `large`: hostile databases with 40..440 extra entries, a protected value and a Meta/Binaries attachment above 64 KiB; non-trivial = at least one hostile ingredient used; distinct = distinct (configuration, size, draws)"
         } else {
-            "databases over the whole public object model inside the lossless domain (every field of Database/Meta/Group/Entry/Times/AutoType/History/CustomData/BinaryAttachment/Icon/HeaderAttachment/DeletedObject, strings with markup, LF/TAB, leading/trailing blanks, astral code points, years 1..9999, integer extremes, colours with small components) x KDBX4 configurations (3 outer ciphers x 2 compressions x 3 inner ciphers x AES-KDF rounds, minor versions); saved with scripted draws into a plain sink (only `write`/`flush`; in half of the cases it accepts a bounded number of bytes per call), re-opened, decoded by the independent strict reader, and pushed through the extracted dump4/decrypt4 model; non-trivial = at least three nodes; distinct = distinct (configuration, size, draws); stream `large`: the same with 40..440 extra entries, one protected value above 64 KiB, a 1000-byte attachment, (two thirds of the cases) a Meta/Binaries attachment above 64 KiB - incompressible noise or 1 MiB of zeros, with and without the Compressed flag - and (every second case, ChaCha20 without compression) the payload sized to exactly 2^17/2^18/2^20/2^21 bytes or one byte off"
+            "databases over the whole public object model inside the lossless domain (every field of Database/Meta/Group/Entry/Times/AutoType/History/CustomData/BinaryAttachment/Icon/HeaderAttachment/DeletedObject, strings with markup, LF/TAB, leading/trailing blanks, astral code points, years 1..9999, integer extremes, colours with small components) x KDBX4 configurations (3 outer ciphers x 2 compressions x 3 inner ciphers x AES-KDF rounds, minor versions); saved with scripted draws into a plain sink (only `write`/`flush`; in half of the cases it accepts a bounded number of bytes per call; in half of the cases after earlier saves of the same database on the same thread that fail in the XML stage or in the sink), re-opened, decoded by the independent strict reader, and pushed through the extracted dump4/decrypt4 model; non-trivial = at least three nodes; distinct = distinct (configuration, size, draws); stream `large`: the same with 40..440 extra entries, one protected value above 64 KiB, a 1000-byte attachment, (two thirds of the cases) a Meta/Binaries attachment above 64 KiB - incompressible noise or 1 MiB of zeros, with and without the Compressed flag - and (every second case, ChaCha20 without compression) the payload sized to exactly 2^17/2^18/2^20/2^21 bytes or one byte off"
         },
         serde_json::json!({}),
     );
